@@ -24,6 +24,11 @@ for avail in [0, 1, 4, 5, 6, 8]:
     for chunk in ([1, 2, 5, 8] if avail >= 4 else [8]):
         H.append(dict(name="marshalling.PointUnmarshalFrom-avail%d-chunk%d" % (avail, chunk), pkg=MP, files=MF, entry="HarnessPointUnmarshalFrom", mode="bv", params={"p0": avail, "p1": chunk}, validate=2, unwind=64,
                       functions=["marshalling.PointUnmarshalFrom", "io.ReadFull", "io.ReadAtLeast"], bound="stream of %d bytes delivered in chunks of at most %d" % (avail, chunk)))
+H.append(dict(name="marshalling.ScalarMarshalTo", pkg=MP, files=MF, entry="HarnessScalarMarshalTo", mode="bv", validate=4, functions=["marshalling.ScalarMarshalTo"], bound="arbitrary 5-byte encoding"))
+for avail in [0, 1, 4, 5, 6, 8]:
+    for chunk in ([1, 2, 5, 8] if avail >= 4 else [8]):
+        H.append(dict(name="marshalling.ScalarUnmarshalFrom-avail%d-chunk%d" % (avail, chunk), pkg=MP, files=MF, entry="HarnessScalarUnmarshalFrom", mode="bv", params={"p0": avail, "p1": chunk}, validate=2, unwind=64,
+                      functions=["marshalling.ScalarUnmarshalFrom", "io.ReadFull", "io.ReadAtLeast"], bound="stream of %d bytes delivered in chunks of at most %d" % (avail, chunk)))
 for mod in [13, 251]:
     for t, tn in enumerate(["projPoint", "extPoint"]):
         H.append(dict(name="vartime.%s.Equal-m%d" % (tn, mod), pkg="./group/edwards25519vartime", files=["harness/C03/vartime_equal.go"], entry="HarnessVartimeEqual", mode="int", params={"p0": mod, "p1": t}, validate=4,
